@@ -794,9 +794,9 @@ def _recs(repo, col):
     ex = idx.expander(repo, fi)
     fn = fi.node
     asg = None
-    for n in walk_no_nested(fn):
-        if isinstance(n, ast.Assign) and isinstance(n.targets[0], ast.Name) and n.targets[0].id == "recs" and \
-                "concatenate" in unparse(n.value):
+    for n in walk_no_nested(fn):   # the statement that joins the initial recording with the scan's outputs (whatever its target is called)
+        if isinstance(n, ast.Assign) and isinstance(n.targets[0], ast.Name) and "concatenate" in unparse(n.value) and \
+                T.find(ex.term(n.value), lambda y: y.op == "call" and y.name == "nested_checkpoint_scan") is not None:
             asg = n
     if asg is None:
         raise AnalysisError("integrate: `recs = concatenate(...)` vanished")
@@ -822,11 +822,14 @@ def _recs(repo, col):
                   f"second block is {second.short()}", node=asg)
         # the bound equals the number of rows of the externals / t_max steps
         if ok2:
-            nm = [n for n in walk_no_nested(fn) if isinstance(n, ast.Assign) and isinstance(n.targets[0], ast.Name)
-                  and n.targets[0].id == "nsteps_to_return"]
-            asg_names = unparse(asg.value)
-            col.check("nsteps_to_return" in asg_names and len(nm) >= 1, R, fi, "bound is the requested number of steps",
-                      "nsteps_to_return", f"recordings are cut at `{upper.short()}`", node=asg)
+            # the requested number of steps: the number of rows of the inputs (after the t_max block), or the steps of t_max
+            # when there are no inputs -- whatever the local that holds it is called
+            rows_of_inputs = T.find(upper, lambda x: x.op == "sub" and x.args[0].op == "attr" and x.args[0].name == "shape" and
+                                    x.args[1].op == "const" and x.args[1].name == 0) is not None or \
+                T.find(upper, lambda x: x.op in ("call", "mcall") and x.name == "len") is not None
+            from_tmax = T.find(upper, lambda x: x.op == "param" and x.name == "t_max") is not None
+            col.check(rows_of_inputs or from_tmax, R, fi, "bound is the requested number of steps",
+                      "number of input rows / steps of t_max", f"recordings are cut at `{upper.short()}`", node=asg)
     # order of rows: one row per recording, in the order of the recordings table, in both gathers
     body, per_step, initial = recording_gathers(repo, fi, ex, first if ok else None)
     gathers = []
